@@ -129,6 +129,8 @@ def handleHist (l : Line) : IO Unit := do
   let qs := (l.hexList? "qs").getD []
   let ls := parseLs (l.getD "ls" "-")
   let id := l.id
+  let xl := (l.hexList? "xl").getD []
+  let il := l.getD "il" "0" == "1"
   let uc := mkUC (l.getD "uni" "-")
   let lx := Lex.unicode uc
   -- uploads: model state, and the specification's view of what is stored
@@ -183,9 +185,42 @@ def handleHist (l : Line) : IO Unit := do
         let want := if modelS == "-" then "-" else "!err"
         IO.println s!"spec {id} q{j} res={want}"
     j := j + 1
+  -- two iterators open at once give what each query gives alone; an iterator abandoned after the
+  -- first result: Next reports whether there is one, Err whether the query is refused
+  if il then
+    let rec pairs : List Bytes → Nat → List (Nat × Bytes × Bytes)
+      | a :: b :: rest, k => (k, a, b) :: pairs rest (k + 2)
+      | _, _ => []
+    for (k, qa, qb) in pairs qs 0 do
+      let ra := dbQueryL lx db qa
+      let rb := dbQueryL lx db qb
+      let ca := if qa.isEmpty then .error .missingOp else clientQueryL lx db qa
+      let cb := if qb.isEmpty then .error .missingOp else clientQueryL lx db qb
+      IO.println s!"obs {id} il{k} a={showResults recStr ra} b={showResults recStr rb} ca={showResults recStr ca} cb={showResults recStr cb}"
+      let (got, bad) := match ra with
+        | .ok rs => (!rs.isEmpty, false)
+        | .error .eof => (false, false)
+        | .error _ => (false, true)
+      IO.println s!"obs {id} ec{k} next={got} err={bad}"
   -- listings
   j := 0
   for (q, limit) in ls do
+    if !xl.isEmpty then
+      -- extra labels: the value of the first label row of the upload with that name
+      let withX (xs : List Bytes) (r : Except QErr (List (Bytes × Nat))) : String :=
+        match r with
+        | .ok rows =>
+          if rows.isEmpty then "-" else ",".intercalate (rows.map fun (uid, n) =>
+            let lv : Labels := xs.foldl (fun acc x =>
+              match db.labels.find? (fun lr => lr.upload == uid && lr.name == x) with
+              | some lr => acc.set x lr.value
+              | none => acc) []
+            uid.toHex ++ ":" ++ toString n ++ ":" ++ labelsStr lv)
+        | .error .eof => "-"
+        | .error _ => "!err"
+      let climit0 : Int := if limit == 0 then 1000 else limit
+      let x2 := [Bytes.ofString "upload-time"]
+      IO.println s!"obs {id} lx{j} db1={withX xl (listUploadsL lx db q limit)} cl1={withX xl (listUploadsL lx db q climit0)} db2={withX x2 (listUploadsL lx db q limit)} cl2={withX x2 (listUploadsL lx db q climit0)}"
     let dbL := listUploadsL lx db q limit
     let climit : Int := if limit == 0 then 1000 else limit
     let clL := listUploadsL lx db q climit
